@@ -366,8 +366,10 @@ fn hang_suspected(item: u64, ran_ms: u64, dispatched: u64, describe: &(dyn Fn(u6
     let case = describe(item);
     crate::diag!("  [{prop}] watchdog: sweep item {item} has been running for {:.0}s", ran_ms as f64 / 1000.0);
     let Some(case) = case else {
-        crate::diag!("MACHINERY-ERROR: a sweep item of {prop} does not return (item {item}, no case description available); giving up");
-        std::process::exit(2);
+        // no way to re-run this item alone: give it ten times the budget (a loaded machine, an item made of thousands of
+        // cases) before giving up; the second expiry is a machinery error, never a verdict
+        crate::diag!("  [{prop}] watchdog: item {item} cannot be re-run alone (no case description); allowing it ten times the budget");
+        return;
     };
     let dir = format!("{}/replays/{}", verif_root(), prop);
     let _ = std::fs::create_dir_all(&dir);
@@ -489,7 +491,7 @@ where
                     let allowed = budget * tolerated.get(&item).copied().unwrap_or(1);
                     if now.saturating_sub(since) > allowed && sl.0.load(Ordering::Acquire) == item {
                         if tolerated.contains_key(&item) {
-                            crate::diag!("MACHINERY-ERROR: sweep item {item} finishes alone but not inside the sweep after {} s; giving up", now.saturating_sub(since) / 1000);
+                            crate::diag!("MACHINERY-ERROR: sweep item {item} has not finished after {} s (ten times the budget); giving up", now.saturating_sub(since) / 1000);
                             std::process::exit(2);
                         }
                         hang_suspected(item, now.saturating_sub(since), next.load(Ordering::Relaxed).min(n), describe);
